@@ -36,6 +36,16 @@ ZERO_FLAG = 1
 
 # cluster tokens (standard L2)
 U, Z, A, N, C, I = "U", "Z", "A", "N", "C", "I"  # unallocated, zero plain, zero alloc, normal, compressed, compressed-incompressible
+L = "L"  # compressed with a long stream: stored blocks flushed every 16 bytes (about 1.3 x the cluster size; the descriptor's
+#          sector count allows up to twice the cluster size)
+
+
+def long_deflate(data: bytes) -> bytes:
+    co = zlib.compressobj(0, zlib.DEFLATED, -12)
+    out = b""
+    for i in range(0, len(data), 16):
+        out += co.compress(data[i:i + 16]) + co.flush(zlib.Z_FULL_FLUSH)
+    return out + co.flush()
 PLACED = (N, A)
 EXT_BACKING_FORMAT = 0xE2792ACA
 EXT_FEATURE_TABLE = 0x6803F857
@@ -187,10 +197,12 @@ def build(states, slots, cluster_bits=16, version=3, size=None, window_at=0, tot
                     raise ValueError("slot shared by different guest clusters")
                 if prev is None:
                     owner[p] = (g, lay)
-            elif tok in (C, I):
+            elif tok in (C, I, L):
                 insec, extra, high = comp_opts.get(i, (0, 0, False))
                 body = pattern.span((pattern.COMPRESSIBLE | lay) if tok == C else lay, g * cs, cs)
-                z = raw_deflate(body, 6 if tok == C else 0)
+                z = long_deflate(body) if tok == L else raw_deflate(body, 6 if tok == C else 0)
+                if tok == L:
+                    extra = 0
                 x = 62 - (cluster_bits - 8)
                 if comp_pack:
                     # byte-packed back to back, as qemu-img convert -c writes them: several clusters share a host sector
@@ -375,7 +387,7 @@ def model(states, cluster_bits, size=None, window_at=0, total_clusters=None, lay
         elif st == C:
             units[g] = DATA
             layers[g] = pattern.COMPRESSIBLE | layer
-        elif st == I:
+        elif st in (I, L):
             units[g] = DATA
         elif st in (Z, A):
             units[g] = ZERO
